@@ -424,6 +424,97 @@ func forcedRounds(t *testing.T, w *bufio.Writer) {
 	}
 }
 
+// listingRound: management listings (GetAllFIBEntries, GetAllForwardingStrategies, Rib.GetAllEntries) run beside
+// forwarding lookups and updates on prefixes whose next hops are NOT in ascending cost order (unrecorded: race / abort /
+// torn-value detection; every value read must be one that was written).
+func listingRound(t *testing.T, w *bufio.Writer, round int, impl string) {
+	names := []iname{{1}, {1, 2}, {1, 2, 3}, {2}}
+	for i, n := range names {
+		// costs descending in insertion order, some set directly in the FIB, some through the RIB
+		table.FibStrategyTable.InsertNextHopEnc(n.enc(), 1, 30)
+		table.FibStrategyTable.InsertNextHopEnc(n.enc(), 2, 20)
+		table.FibStrategyTable.InsertNextHopEnc(n.enc(), 3, 10)
+		if i%2 == 1 {
+			table.Rib.AddEncRoute(n.enc(), &table.Route{FaceID: 1, Origin: 0, Cost: 30, Flags: 1})
+			table.Rib.AddEncRoute(n.enc(), &table.Route{FaceID: 2, Origin: 0, Cost: 20, Flags: 1})
+			table.Rib.AddEncRoute(n.enc(), &table.Route{FaceID: 3, Origin: 0, Cost: 10, Flags: 0})
+		}
+	}
+	valid := map[uint64]bool{10: true, 20: true, 30: true, 5: true, 40: true}
+	var bad atomic.Int64
+	var wg sync.WaitGroup
+	stop := make(chan struct{})
+	run := func(f func(k int)) {
+		wg.Add(1)
+		go func() {
+			defer wg.Done()
+			for k := 0; ; k++ {
+				select {
+				case <-stop:
+					return
+				default:
+				}
+				f(k)
+			}
+		}()
+	}
+	check := func(nhs []*table.FibNextHopEntry) {
+		seen := map[uint64]bool{}
+		for _, nh := range nhs {
+			if !valid[nh.Cost] || nh.Nexthop < 1 || nh.Nexthop > 3 || seen[nh.Nexthop] {
+				bad.Add(1)
+			}
+			seen[nh.Nexthop] = true
+		}
+	}
+	for i := 0; i < 2; i++ {
+		run(func(k int) { // listings
+			for _, e := range table.FibStrategyTable.GetAllFIBEntries() {
+				check(e.GetNextHops())
+			}
+			for _, e := range table.FibStrategyTable.GetAllForwardingStrategies() {
+				_ = e.GetStrategy()
+			}
+			for _, e := range table.Rib.GetAllEntries() {
+				for _, r := range e.GetRoutes() {
+					_ = r.Cost
+				}
+			}
+		})
+	}
+	for i := 0; i < 3; i++ {
+		run(func(k int) { // forwarding lookups
+			n := names[k%len(names)]
+			check(table.FibStrategyTable.FindNextHopsEnc(append(n.enc(), enc.NewStringComponent(enc.TypeGenericNameComponent, "x"))))
+		})
+	}
+	run(func(k int) { // updates that keep the hops out of cost order
+		n := names[k%len(names)]
+		costs := []uint64{30, 20, 10, 5, 40}
+		if k%3 == 0 {
+			table.Rib.AddEncRoute(names[1].enc(), &table.Route{FaceID: uint64(1 + k%3), Origin: 0, Cost: costs[(k/3)%5], Flags: 1})
+		} else {
+			table.FibStrategyTable.InsertNextHopEnc(n.enc(), uint64(1+k%3), costs[k%5])
+		}
+	})
+	time.Sleep(150 * time.Millisecond)
+	close(stop)
+	done := make(chan struct{})
+	go func() { wg.Wait(); close(done) }()
+	select {
+	case <-done:
+	case <-time.After(20 * time.Second):
+		fmt.Fprintf(w, "R l%d %s 1 6\nX watchdog: listing round did not complete (deadlock?)\nE\n", round, impl)
+		w.Flush()
+		t.Fatalf("listing round %d did not complete", round)
+	}
+	fmt.Fprintf(w, "R l%d %s 1 6\n", round, impl)
+	if n := bad.Load(); n > 0 {
+		fmt.Fprintf(w, "X listing round: %d next-hop values read by a lookup or listing were never written (torn or duplicated record)\n", n)
+	}
+	fmt.Fprintf(w, "E\n")
+}
+
 // faceRound: goroutines register (FaceTable.Add), look up (Get) and tear down (Remove) stub faces concurrently.
 func faceRound(w *bufio.Writer, round int, g *gen, heavy bool) {
 	mk := func() face.LinkService { return face.MakeNullLinkService(face.MakeNullTransport()) }
@@ -613,6 +704,10 @@ func TestConc(t *testing.T) {
 			table.CreateFIBTable("nametree")
 		}
 		table.VerifResetRib()
+		if round%7 == 6 {
+			listingRound(t, w, round, impl)
+			continue
+		}
 		names := g.names()
 		ngor := []int{2, 2, 3, 4, 6, 8, 12, 16}[g.r.Intn(8)]
 		// unrecorded heavy rounds (every 4th): many more operations per goroutine, only race/crash/deadlock detection
